@@ -314,6 +314,7 @@ HEADER = '''/- GENERATED by tools/translate/bulk_arith.py from
    on every run of the check.  Do not edit: changes are overwritten, and the theorems in
    Props/ are re-checked against this text. -/
 import PikaVerif.Core.CInt
+set_option linter.unusedVariables false
 namespace PikaVerif.Gen.{ns}
 open PikaVerif
 
